@@ -294,6 +294,9 @@ fn main() {
                     clients: if authn { vec![("alice".into(), "S3cretAlicePw".into()), ("bob".into(), "S3cretBobPw1".into())] } else { vec![] },
                     accepted_sni: "sn1cr3dsOK".into(),
                     allow_private: real && real_allow_private,
+                    // "the configured authenticator" is whatever Core::new was given: every third vector embeds the
+                    // library with an authenticator of its own and an empty Settings::clients
+                    registry_in_settings: n_vec % 3 != 0,
                     ..Default::default()
                 };
                 let fwd = ScriptedForwarder::new(TcpPlan::Other, MuxPlan::Ok, MuxPlan::Ok);
